@@ -357,6 +357,30 @@ Section Connect.
       | None => {| raised := Some EOther; keys := false |}
       end
     end.
+
+  (* ---- history: the credentials stored in the service may be replaced (device paired again)
+     between the construction of a protocol object and its start()/connect, or between two
+     connects of an object that can connect again.  MrpProtocol.start/_enable_encryption,
+     CompanionProtocol.start/_setup_encryption, AirPlayStream.create_airplay_protocol and
+     RaopStream.stream_file read service.credentials when they connect. *)
+  Inductive event :=
+  | SetCreds (c : option creds)                 (* service.credentials := ... (None: removed) *)
+  | Connect (h : handler) (f1 : option exn) (pd : bytes) (f3 : option exn) (pd4 : bytes).
+
+  (* connecting with what is stored NOW; nothing stored: no verification, no keys *)
+  Definition connect_stored (k : pcfg) (p : proto) (cur : option creds) h f1 pd f3 pd4 : conn :=
+    match cur with
+    | None => {| raised := None; keys := false |}
+    | Some c => connect k p h c f1 pd f3 pd4
+    end.
+
+  (* the results of the connects of one object, in order; [cur] = stored when it was created *)
+  Fixpoint run_history (k : pcfg) (p : proto) (cur : option creds) (evs : list event) : list conn :=
+    match evs with
+    | [] => []
+    | SetCreds c :: r => run_history k p c r
+    | Connect h f1 pd f3 pd4 :: r => connect_stored k p cur h f1 pd f3 pd4 :: run_history k p cur r
+    end.
 End Connect.
 
 (* ------------------------------------------------------------------ correspondence cases *)
@@ -389,6 +413,11 @@ Definition o_sign T a b := assoc [a; b] (t_sign T) None.
 Definition t_verify1 T := verify1 (o_x T) (o_hkdf T) (o_dec T) (o_enc T) (o_pk T) (o_sig T) (o_sign T).
 Definition t_verify_credentials T :=
   verify_credentials (o_x T) (o_hkdf T) (o_dec T) (o_enc T) (o_pk T) (o_sig T) (o_sign T).
+Definition creds_after (init : option creds) (evs : list event) : option creds :=
+  fold_left (fun cur e => match e with SetCreds c => c | Connect _ _ _ _ _ => cur end) evs init.
+Definition connects_in (evs : list event) : nat :=
+  length (filter (fun e => match e with Connect _ _ _ _ _ => true | SetCreds _ => false end) evs).
+
 Definition t_connect T := connect (o_x T) (o_hkdf T) (o_dec T) (o_enc T) (o_pk T) (o_sig T) (o_sign T).
 
 Scheme Equality for exn.
